@@ -408,7 +408,7 @@ def make_twin(text, spans, ex):
             tt = t.rstrip()
             if not tt.endswith(','):
                 tt += ','
-            tt += '\n        __canary_%d(), // must-fail twin\n' % len(expect)
+            tt += '\n        crate::__canary_%d(), // must-fail twin\n' % len(expect)
             out.append(tt)
             expect.append(origin[1])
         else:
@@ -426,6 +426,9 @@ def check_twin(info, out, err):
         js = json.loads(out)
     except Exception:
         return {'ok': False, 'why': 'twin produced no JSON'}
+    if js.get('verification-results', {}).get('encountered-vir-error') or 'function-breakdown' not in out:
+        m = re.search(r'"message":"([^"]*)","code":[^,]*,"level":"error"', err)
+        return {'ok': False, 'why': 'must-fail twin did not compile: ' + (m.group(1)[:200] if m else '?')}
     failing = set()
     for m in js.get('times-ms', {}).get('smt', {}).get('smt-run-module-times', []):
         for f in m.get('function-breakdown', []):
